@@ -330,8 +330,6 @@ def Reads {T} (rd : StmtReader T) (sem : Stmt → Except Err (Option (String × 
   ∀ s ∈ ss, ∀ (fuel : Nat) (tail : List Ev), s.render.length ≤ fuel + 1 →
     rd fuel s.tag (s.body.flatMap BodyItem.render ++ .end s.raw :: tail) = liftR (sem s) tail
 
-def stmtsOf (items : List PoItem) : List Stmt := items.filterMap fun | .stmt s => some s | .comment => none
-
 theorem Stmt.tag_is (s : Stmt) : s.tag.is XNM "policy-statement" = true := by simp [Stmt.tag, xnmTag_is]
 
 theorem policyOptionsLoop_refines {T} (rd : StmtReader T) (sem : Stmt → Except Err (Option (String × T)))
@@ -605,5 +603,181 @@ theorem stmtAbs_fixed (parseExpr unescape : String → Option String) (s : Stmt)
               cases o <;> cases r <;> cases d <;> simp [hu]
             | cons m ms => simp
           | cons cs' ts' => simp
+
+end Xml
+
+namespace Xml
+
+/-! ### duplicate names -/
+
+def addAll {T} (map : List (String × T)) : List (String × T) → Except Err (List (String × T))
+  | [] => .ok map
+  | x :: xs => if map.any (·.1 == x.1) then .error .other else addAll (map ++ [x]) xs
+
+theorem poAbs_ok {T} (sem : Stmt → Except Err (Option (String × T))) (sel : Stmt → Option (String × T))
+    (items : List PoItem) (h : ∀ s ∈ stmtsOf items, sem s = .ok (sel s)) (map : List (String × T)) :
+    poAbs sem map items = addAll map ((stmtsOf items).filterMap sel) := by
+  induction items generalizing map with
+  | nil => rfl
+  | cons x is ih =>
+    cases x with
+    | comment => simpa [poAbs, stmtsOf] using ih (by simpa [stmtsOf] using h) map
+    | stmt s =>
+      have h' : ∀ s ∈ stmtsOf is, sem s = .ok (sel s) := fun y hy => h y (by simp [stmtsOf] at hy ⊢; exact Or.inr hy)
+      have hs := h s (by simp [stmtsOf])
+      simp only [poAbs, hs]
+      have e : stmtsOf (.stmt s :: is) = s :: stmtsOf is := by simp [stmtsOf]
+      rw [e, List.filterMap_cons]
+      cases hsel : sel s with
+      | none => simpa using ih h' map
+      | some np =>
+        obtain ⟨n, p⟩ := np
+        simp only [addAll]
+        split
+        · rfl
+        · exact ih h' _
+
+theorem all_snoc {T} (map : List (String × T)) (x : String × T) (xs : List (String × T)) :
+    (xs.all fun y => !(map ++ [x]).any (·.1 == y.1))
+      = ((xs.all fun y => !map.any (·.1 == y.1)) && !xs.any (·.1 == x.1)) := by
+  induction xs with
+  | nil => rfl
+  | cons y ys ih =>
+    have hc : (y.1 == x.1) = (x.1 == y.1) := by
+      rw [Bool.eq_iff_iff]; simp only [beq_iff_eq]; exact eq_comm
+    rw [List.all_cons, List.all_cons, List.any_cons, ih, List.any_append]
+    simp only [List.any_cons, List.any_nil, Bool.or_false, hc]
+    generalize map.any (fun z => z.1 == y.1) = a
+    generalize (x.1 == y.1) = b
+    generalize (ys.all fun y => !map.any (·.1 == y.1)) = c
+    generalize ys.any (·.1 == x.1) = d
+    cases a <;> cases b <;> cases c <;> cases d <;> rfl
+
+theorem addAll_eq {T} (map l : List (String × T)) :
+    addAll map l = if nodupNames l && l.all (fun x => !map.any (·.1 == x.1)) then .ok (map ++ l) else .error .other := by
+  induction l generalizing map with
+  | nil => simp [addAll, nodupNames]
+  | cons x xs ih =>
+    simp only [addAll, nodupNames, List.all_cons]
+    rw [ih, all_snoc]
+    by_cases ha : (map.any fun z => z.1 == x.1) = true
+    · simp [ha]
+    · by_cases hb : (xs.any fun z => z.1 == x.1) = true <;> by_cases hc : nodupNames xs = true <;>
+        by_cases hd : (xs.all fun y => !map.any fun z => z.1 == y.1) = true <;> simp [ha, hb, hc, hd]
+
+theorem addAll_nil {T} (l : List (String × T)) :
+    addAll [] l = if nodupNames l then .ok l else .error .other := by
+  rw [addAll_eq]; simp
+
+theorem poAbs_congr {T} (sem1 sem2 : Stmt → Except Err (Option (String × T))) (items : List PoItem)
+    (h : ∀ s ∈ stmtsOf items, sem1 s = sem2 s) (map : List (String × T)) :
+    poAbs sem1 map items = poAbs sem2 map items := by
+  induction items generalizing map with
+  | nil => rfl
+  | cons x is ih =>
+    cases x with
+    | comment => simpa [poAbs] using ih (by simpa [stmtsOf] using h) map
+    | stmt s =>
+      have h' : ∀ s ∈ stmtsOf is, sem1 s = sem2 s := fun y hy => h y (by simp [stmtsOf] at hy ⊢; exact Or.inr hy)
+      have hs := h s (by simp [stmtsOf])
+      simp only [poAbs, hs]
+      cases sem2 s with
+      | error e => rfl
+      | ok v =>
+        cases v with
+        | none => exact ih h' map
+        | some np =>
+          simp only []
+          split
+          · rfl
+          · exact ih h' _
+
+/-! ### the code as it is (`.pinned`) on statements without other content -/
+
+/-- the body holds nothing but at most one name, at most one `then`, comments; `then` holds nothing
+but `<reject/>` and comments -/
+def Stmt.plain (s : Stmt) : Bool :=
+  !s.body.any BodyItem.isOther && decide (s.names.length ≤ 1) && decide (s.thens.length ≤ 1) &&
+    s.thens.all fun cs => !cs.any ThenItem.isDirty
+
+theorem thenAbs_clean (c : FCfg) (cs : List ThenItem) (h : cs.any ThenItem.isDirty = false) (rj ot : Bool) :
+    thenAbs c rj ot cs = .ok (rj || cs.any ThenItem.isReject, ot) := by
+  induction cs generalizing rj with
+  | nil => simp [thenAbs]
+  | cons x cs ih =>
+    simp only [List.any_cons, Bool.or_eq_false_iff] at h
+    cases x with
+    | empty t =>
+      have : t.is XNM "reject" = true := by simpa [ThenItem.isDirty, ThenItem.isReject, ThenItem.isComment] using h.1
+      simp only [thenAbs, this, if_true]; rw [ih h.2]; simp [ThenItem.isReject, this]
+    | comment => simp only [thenAbs]; rw [ih h.2]; simp [ThenItem.isReject]
+    | elem t i => simp [ThenItem.isDirty, ThenItem.isReject, ThenItem.isComment] at h
+    | text s => simp [ThenItem.isDirty, ThenItem.isReject, ThenItem.isComment] at h
+    | cdata => simp [ThenItem.isDirty, ThenItem.isReject, ThenItem.isComment] at h
+
+theorem bodyAbs_pinned_plain (unescape : String → Option String) (bs : List BodyItem) (st : BodySt)
+    (hinv : st.thenSeen = false → st.reject = false)
+    (ho : bs.any BodyItem.isOther = false)
+    (hn : (bodyNames bs).length + st.name.isSome.toNat ≤ 1)
+    (ht : (bodyThens bs).length + st.thenSeen.toNat ≤ 1)
+    (hc : ∀ cs ∈ bodyThens bs, cs.any ThenItem.isDirty = false) :
+    bodyAbs .pinned unescape st bs = bodyAbs .fixed unescape st bs := by
+  induction bs generalizing st with
+  | nil => rfl
+  | cons b bs ih =>
+    simp only [List.any_cons, Bool.or_eq_false_iff] at ho
+    rw [bodyNames_cons] at hn
+    rw [bodyThens_cons] at ht hc
+    cases b with
+    | comment => simp only [bodyAbs]; exact ih st hinv ho.2 (by simpa using hn) (by simpa using ht) (by simpa using hc)
+    | elem t i => simp [BodyItem.isOther] at ho
+    | empty t => simp [BodyItem.isOther] at ho
+    | text s => simp [BodyItem.isOther] at ho
+    | cdata => simp [BodyItem.isOther] at ho
+    | name nraw attrs span inner =>
+      simp only [List.cons_append, List.nil_append, List.length_cons] at hn ht hc
+      have hnone : st.name = none := by
+        cases h : st.name with
+        | none => rfl
+        | some m => have : st.name.isSome.toNat = 1 := by simp [h]
+                    omega
+      simp only [bodyAbs, hnone, Option.isNone_none, if_true]
+      cases unescape span with
+      | none => rfl
+      | some n =>
+        have h0 : st.name.isSome.toNat = 0 := by simp [hnone]
+        exact ih _ hinv ho.2 (by simp only [Option.isSome_some, Bool.toNat_true]; omega) ht hc
+    | then_ traw attrs span cs =>
+      simp only [List.cons_append, List.nil_append, List.length_cons] at hn ht hc
+      have hts : st.thenSeen = false := by
+        cases h : st.thenSeen with
+        | false => rfl
+        | true => have : st.thenSeen.toNat = 1 := by simp [h]
+                  omega
+      have hrj := hinv hts
+      have hcl := hc cs (by simp)
+      simp only [bodyAbs, BodySt.thenOpen, FCfg.pinned_thenOnce, FCfg.fixed_thenOnce, hts, hrj, Bool.not_false,
+        Bool.false_eq_true, if_false, if_true, thenAbs_clean _ cs hcl]
+      have h0 : st.thenSeen.toNat = 0 := by simp [hts]
+      exact ih _ (by simp) ho.2 hn (by simp only [Bool.toNat_true]; omega) (fun x hx => hc x (by simp [hx]))
+
+theorem stmtAbs_pinned_plain (parseExpr unescape : String → Option String) (s : Stmt)
+    (h : s.inactive = false → s.annotation.isSome → s.plain = true) :
+    stmtAbs .pinned parseExpr unescape s = stmtAbs .fixed parseExpr unescape s := by
+  unfold stmtAbs
+  rw [attrsAbs_eq]
+  cases hi : s.inactive with
+  | true => rfl
+  | false =>
+    cases ha : s.annotation with
+    | none => rfl
+    | some raw =>
+      have hp := h hi (by simp [ha])
+      simp only [Stmt.plain, Bool.and_eq_true, Bool.not_eq_true', decide_eq_true_eq, Stmt.names, Stmt.thens,
+        List.all_eq_true] at hp
+      obtain ⟨⟨⟨h1, h2⟩, h3⟩, h4⟩ := hp
+      have := bodyAbs_pinned_plain unescape s.body {} (by simp) h1 (by simpa using of_decide_eq_true h2) (by simpa using of_decide_eq_true h3)
+        (fun cs hcs => by simpa using h4 cs hcs)
+      simp only [Bool.false_eq_true, if_false, Option.map_some, this]
 
 end Xml
